@@ -14,7 +14,10 @@ partial def parseMembers : List Sexp → Option Tree
       let defv := match o.field? "def" with
         | some (.list [_, .atom e]) => e
         | _ => ""
-      some (.field { name := name, ptype := pty, newMark := o.hasFlag "new", skip := o.hasFlag "skip", defv := defv,
+      let jtag := match o.field? "json" with
+        | some (.list [_, .atom e]) => e
+        | _ => ""
+      some (.field { name := name, ptype := pty, newMark := o.hasFlag "new", skip := o.hasFlag "skip", defv := defv, jsonTag := jtag,
                      hasDoc := o.hasFlag "hasdoc", get := o.hasFlag "get", set := o.hasFlag "set" } r)
     | .list [.atom "e", .atom name, .atom ty, .atom p, .atom nm, .list (.atom "body" :: ms)] => do
       let b ← parseMembers ms
